@@ -43,6 +43,9 @@ type hstep struct {
 	config  bool   // configuration only (no call): nothing to judge
 	ignore  bool   // executed, but only a panic is judged
 	hard    bool   // the rejection must not be of the "not for this identity" class
+	// wantPanic: a guarded configuration call with an illegal value; it must
+	// panic (and, by the model, leave the object exactly as it was)
+	wantPanic bool
 }
 
 type histCase struct {
@@ -96,6 +99,14 @@ func (h *histCase) judge(r *mon.Run, o *outcome, died string) (violated bool) {
 	}
 	for i, s := range h.steps {
 		if s.config {
+			if s.wantPanic {
+				r.Count("config_illegal_calls", 1)
+				if cp := o.Sub[i].CfgPanicked; len(cp) != 1 || !cp[0] {
+					rep.violate(pendingViolation{"config-illegal-value-accepted/identity", "config-illegal-value-accepted:identity:" + s.desc,
+						fmt.Sprintf("%s did not panic (history %s)", s.desc, h.k), replay})
+					violated = true
+				}
+			}
 			continue
 		}
 		so := &o.Sub[i]
